@@ -2,10 +2,10 @@ ID = "C11"
 LEVEL = "model_checking"
 MIRSYM = "C11"
 BOUNDS = ("all usize limits of the connection semaphore; the admission branch for try_acquire Some / None x upgrade or not x handshake ok / failed x protocol switches; the HTTP response future "
-          "for call ready / pending; the WebSocket task for upgrade ok / failed; ws::background_task from every resume point; the service builder's guard for all limits; graceful_shutdown's wait for every receive-loop result; the limit through every builder step; the HTTP call is processed by the permit-holding future itself")
+          "for call ready / pending; the WebSocket task for upgrade ok / failed; ws::background_task from every resume point; the service builder's guard for all limits; graceful_shutdown's wait for every receive-loop result; the limit through every builder step; the HTTP call is processed by the permit-holding future itself; try_recv's ping ticks over three loop rounds (any ping configuration, failure count below 2^62, arbitrary idle verdict per tick)")
 EXPLANATION = ("Reduced claim. Symbolic execution of the MIR of ConnectionGuard, TowerServiceNoHttp::call and the futures it creates, and ws::background_task: the semaphore has exactly "
                "max_connections slots; a request without a permit gets 429 and nothing else; the acquired permit is put into this connection's state, which is handed to the task / future "
-               "that serves the connection and is let go only after the HTTP call was answered / the WebSocket session shut down, or at once when nothing is served. Only a stopping server waits for a connection's running calls; the service builder sizes its guard from the configuration.")
+               "that serves the connection and is let go only after the HTTP call was answered / the WebSocket session shut down, or at once when nothing is served. Only a stopping server waits for a connection's running calls; the service builder sizes its guard from the configuration. A peer silent beyond the limit is counted on every tick and closed exactly at max_failures - the server-side close that frees its slot.")
 TRUSTED = ["rustc MIR dump", "z3 / cvc5", "tokio Semaphore semantics as modelled (a counter)", "Rust drops a future's captured state when the future is dropped (abort, peer reset)"]
 OUTSIDE = ["that connection tasks actually end on peer reset / abort / server-side close, and when tokio runs them (schedules, hyper)", "the instantaneous count of served connections under concurrency",
            "low-level API users who build ConnectionState themselves"]
